@@ -154,13 +154,13 @@ def sym_bytes(sym, idx):
     return fr, [(kind, op, payload)], [len(fr)]
 
 
-CFGS = ["default", "nomt", "timeout+skip", "connected", "reused-midframe", "created"]
+CFGS = ["default", "nomt", "timeout+skip", "connected", "reused-midframe", "created", "reused-eof-midframe"]
 
 
 def configured_ws(cfg, stream):
     """The connection object a stream is decoded on: default, without locks, with a socket timeout and UTF-8 validation off, after a real
     connect(), or a re-used object whose first connection ended in the middle of a frame."""
-    if cfg in ("connected", "reused-midframe", "created"):
+    if cfg in ("connected", "reused-midframe", "created", "reused-eof-midframe"):
         ws, sock = env.prepared_ws(cfg)
         sock.at_end = "eof"
         base = len(sock.stream)
